@@ -76,7 +76,7 @@ func (c *baseConn) readPkt(b []byte) (int, udp.UDPAddr, snet.DataplanePath, net.
 			continue // ignore non-UDP payload
 		}
 		srcAddr, err := scionLayer.SrcAddr()
-		if err != nil {
+		if err != nil || srcAddr.Type() != addr.HostTypeIP {
 			continue // ignore unexpected address type
 		}
 		remoteAddr := udp.UDPAddr{
@@ -220,25 +220,29 @@ func (c *serverConn) LocalAddr() net.Addr {
 }
 
 func (c *serverConn) ReadFrom(b []byte) (int, net.Addr, error) {
-	n, remoteAddr, path, lastHop, err := c.readPkt(b)
-	if err != nil {
-		return 0, nil, err
+	for {
+		n, remoteAddr, path, lastHop, err := c.readPkt(b)
+		if err != nil {
+			return 0, nil, err
+		}
+		rpath, ok := path.(snet.RawPath)
+		if !ok {
+			return 0, nil, errUnexpectedPathType
+		}
+		replyPather := snet.DefaultReplyPather{}
+		replyPath, err := replyPather.ReplyPath(rpath)
+		if err != nil {
+			// The path is network input. An error returned from here would
+			// make quic-go close the transport, i.e., end the listener.
+			continue // ignore packet with irreversible path
+		}
+		remoteAddrPath := udpAddrPath{
+			addr:    remoteAddr,
+			path:    replyPath,
+			nextHop: lastHop,
+		}
+		return n, remoteAddrPath, nil
 	}
-	rpath, ok := path.(snet.RawPath)
-	if !ok {
-		return 0, nil, errUnexpectedPathType
-	}
-	replyPather := snet.DefaultReplyPather{}
-	replyPath, err := replyPather.ReplyPath(rpath)
-	if err != nil {
-		return 0, nil, errPathReversal
-	}
-	remoteAddrPath := udpAddrPath{
-		addr:    remoteAddr,
-		path:    replyPath,
-		nextHop: lastHop,
-	}
-	return n, remoteAddrPath, err
 }
 
 func (c *serverConn) WriteTo(b []byte, addr net.Addr) (int, error) {
